@@ -502,7 +502,11 @@ class CGenerator:
                 s = ""
                 if n.quals:
                     s += " ".join(n.quals) + " "
-                s += self.visit(n.type)
+                if isinstance(n.type, c_ast.Typename):
+                    # the _Atomic(type-name) specifier (kept nested in type names)
+                    s += "_Atomic(" + self.visit(n.type) + ")"
+                else:
+                    s += self.visit(n.type)
 
                 nstr = n.declname if n.declname and emit_declname else ""
                 # Resolve modifiers.
